@@ -1,7 +1,1520 @@
-//! C10 — not built yet.
-use crate::report::Tier;
+//! C10 — indexes, pruning, caching and execution strategy change speed only.
+//!
+//! Differential monitor: the same query text on equal graphs under different physical
+//! configurations. Oracle configuration: no property index, zone-map / index / range planner
+//! paths switched off by the `grafeo_verif` flags, factorized execution off, cold plan cache
+//! (fresh database) — i.e. scan + generic filter.
+//!
+//! Three parts, all on every run:
+//!  1. a directed matrix (predicate shape x literal type x target x path), enumerated
+//!     exhaustively over fixed data sets — signatures `c10:cell|shape|literal|target|path=kind`;
+//!  2. random graphs x random query texts x ~12 physical configurations; a failing case is
+//!     reduced; if the reduced witness has the form of a matrix cell it is reported under the
+//!     cell's signature, otherwise under its canonical skeleton;
+//!  3. histories: one long-lived session (all optimisations on) re-running the same text after
+//!     data changes (new labels, index creation / drop, property updates, deletes) versus a
+//!     freshly built database holding the same data.
 
-pub fn run(_tier: Tier, _seed: u64) -> ! {
-    println!("INCONCLUSIVE property=C10 reason=monitor not built yet");
-    std::process::exit(2)
+#[path = "c09_gen.rs"]
+mod qgen;
+
+use crate::hooks;
+use crate::report::{Report, Tier};
+use crate::rng::{Rng, hash_str};
+use crate::util::catch;
+use crate::vals;
+use qgen::{Cmp, Expr, GraphSpec, Lang, Outcome, Pred, Profile, Query};
+use grafeo_common::types::{EdgeId, NodeId, Value};
+use grafeo_engine::GrafeoDB;
+use serde_json::json;
+use std::collections::{BTreeMap, BTreeSet};
+use std::sync::atomic::Ordering;
+
+// ------------------------------------------------------------------------------------------
+// physical configurations
+// ------------------------------------------------------------------------------------------
+
+/// true = the optimisation is ENABLED
+#[derive(Clone, Copy, Debug, PartialEq, Eq)]
+struct Phys {
+    zone: bool,
+    index: bool,
+    range: bool,
+    factorized: bool,
+}
+const BASE: Phys = Phys { zone: false, index: false, range: false, factorized: false };
+
+fn set_flags(p: Phys) {
+    hooks::NO_ZONE_MAP.store(!p.zone, Ordering::SeqCst);
+    hooks::NO_INDEX_PATH.store(!p.index, Ordering::SeqCst);
+    hooks::NO_RANGE_PATH.store(!p.range, Ordering::SeqCst);
+}
+
+#[derive(Clone, Copy, Debug, PartialEq, Eq)]
+enum IdxMode {
+    None,
+    /// index created on the empty database, data loaded afterwards
+    Before,
+    /// data loaded, then index created
+    After,
+    /// created, dropped, created again after the load
+    Recreate,
+}
+
+#[derive(Clone, Copy, Debug)]
+struct Variant {
+    name: &'static str,
+    class: &'static str,
+    phys: Phys,
+    idx: IdxMode,
+}
+
+const VARIANTS: &[Variant] = &[
+    Variant { name: "zone_only", class: "zone", phys: Phys { zone: true, ..BASE }, idx: IdxMode::None },
+    Variant { name: "index_before_load", class: "index", phys: Phys { index: true, ..BASE }, idx: IdxMode::Before },
+    Variant { name: "index_after_load", class: "index", phys: Phys { index: true, ..BASE }, idx: IdxMode::After },
+    Variant { name: "index_recreated", class: "index", phys: Phys { index: true, ..BASE }, idx: IdxMode::Recreate },
+    Variant { name: "index_present_path_off", class: "index_unused", phys: BASE, idx: IdxMode::After },
+    Variant { name: "range_only", class: "range", phys: Phys { range: true, ..BASE }, idx: IdxMode::None },
+    Variant { name: "all_paths", class: "all", phys: Phys { zone: true, index: true, range: true, factorized: false }, idx: IdxMode::After },
+    Variant { name: "factorized_only", class: "factorized", phys: Phys { factorized: true, ..BASE }, idx: IdxMode::None },
+    Variant { name: "everything_on", class: "all+factorized", phys: Phys { zone: true, index: true, range: true, factorized: true }, idx: IdxMode::Before },
+];
+
+fn build_variant(g: &GraphSpec, factorized: bool, idx: IdxMode, keys: &[&str]) -> qgen::Built {
+    let db = GrafeoDB::with_config(qgen::config(factorized)).expect("db");
+    if idx == IdxMode::Before {
+        for k in keys {
+            db.create_property_index(k);
+        }
+    }
+    let (nodes, edges) = qgen::build_into(&db, g);
+    match idx {
+        IdxMode::After => {
+            for k in keys {
+                db.create_property_index(k);
+            }
+        }
+        IdxMode::Recreate => {
+            for k in keys {
+                db.create_property_index(k);
+            }
+            for k in keys {
+                db.drop_property_index(k);
+            }
+            for k in keys {
+                db.create_property_index(k);
+            }
+        }
+        _ => {}
+    }
+    qgen::Built { db, nodes, edges }
+}
+
+fn run_text(db: &GrafeoDB, lang: Lang, text: &str, phys: Phys) -> Outcome {
+    set_flags(phys);
+    let s = db.session();
+    qgen::outcome_of(catch(|| match lang {
+        Lang::Gql => s.execute(text),
+        Lang::Cypher => s.execute_cypher(text),
+    }))
+}
+
+fn run_session(s: &grafeo_engine::Session, lang: Lang, text: &str, phys: Phys) -> Outcome {
+    set_flags(phys);
+    qgen::outcome_of(catch(|| match lang {
+        Lang::Gql => s.execute(text),
+        Lang::Cypher => s.execute_cypher(text),
+    }))
+}
+
+/// components of a difference: rows comparisons are split into missing / extra
+fn diff_kinds(base: &Outcome, got: &Outcome, ordered: bool) -> Vec<String> {
+    match qgen::diff(base, got, ordered) {
+        None => vec![],
+        Some(k) if k == "wrong_value" => vec!["missing_rows".into(), "extra_rows".into()],
+        Some(k) => vec![k],
+    }
+}
+
+// ------------------------------------------------------------------------------------------
+// part 1: directed matrix
+// ------------------------------------------------------------------------------------------
+
+const SHAPES: [&str; 15] =
+    ["eq", "ne", "lt", "le", "gt", "ge", "range_conj", "eq_and", "eq_eq", "eq_or", "in", "is_null", "is_not_null", "not", "flipped"];
+const LIT_TYPES: [&str; 5] = ["Int", "FloatIntegral", "Float", "String", "Bool"];
+const PATHS: [(&str, Phys, bool); 4] = [
+    ("zone_map", Phys { zone: true, index: false, range: false, factorized: false }, false),
+    ("index", Phys { zone: false, index: true, range: false, factorized: false }, true),
+    ("range", Phys { zone: false, index: false, range: true, factorized: false }, false),
+    ("all", Phys { zone: true, index: true, range: true, factorized: false }, true),
+];
+
+fn lits_of(t: &str) -> [Value; 2] {
+    match t {
+        "Int" => [Value::Int64(1), Value::Int64(7)],
+        "FloatIntegral" => [Value::Float64(1.0), Value::Float64(7.0)],
+        "Float" => [Value::Float64(1.5), Value::Float64(7.5)],
+        "String" => [vals::s("a"), vals::s("zz")],
+        _ => [Value::Bool(true), Value::Bool(false)],
+    }
+}
+
+/// a third literal for the plain comparison shapes: zero (signed zeros / Int 0 vs Float 0.0)
+fn zero_lit(t: &str) -> Option<&'static str> {
+    match t {
+        "Int" => Some("0"),
+        "FloatIntegral" => Some("0.0"),
+        _ => None,
+    }
+}
+
+/// predicate texts of one (shape, literal type) over `v.p` (extra conjuncts use `v.q`)
+fn shape_preds(shape: &str, t: &str, v: &str) -> Vec<String> {
+    let l = lits_of(t);
+    let (a, b) = (qgen::lit_text(&l[0]), qgen::lit_text(&l[1]));
+    let (lo, hi) = if t == "Bool" { (b.clone(), a.clone()) } else { (a.clone(), b.clone()) };
+    if let (Some(z), Some(op)) = (zero_lit(t), match shape {
+        "eq" => Some("="),
+        "ne" => Some("<>"),
+        "lt" => Some("<"),
+        "le" => Some("<="),
+        "gt" => Some(">"),
+        "ge" => Some(">="),
+        _ => None,
+    }) {
+        return vec![format!("{v}.p {op} {a}"), format!("{v}.p {op} {b}"), format!("{v}.p {op} {z}")];
+    }
+    match shape {
+        "eq" => vec![format!("{v}.p = {a}"), format!("{v}.p = {b}")],
+        "ne" => vec![format!("{v}.p <> {a}"), format!("{v}.p <> {b}")],
+        "lt" => vec![format!("{v}.p < {a}"), format!("{v}.p < {b}")],
+        "le" => vec![format!("{v}.p <= {a}"), format!("{v}.p <= {b}")],
+        "gt" => vec![format!("{v}.p > {a}"), format!("{v}.p > {b}")],
+        "ge" => vec![format!("{v}.p >= {a}"), format!("{v}.p >= {b}")],
+        "range_conj" => vec![
+            format!("{v}.p >= {lo} AND {v}.p <= {hi}"),
+            format!("{v}.p > {lo} AND {v}.p < {hi}"),
+            format!("{v}.p <= {hi} AND {v}.p > {lo}"),
+            format!("{v}.p >= {hi} AND {v}.p <= {lo}"),
+        ],
+        "eq_and" => vec![
+            format!("{v}.p = {a} AND {v}.q > 4"),
+            format!("{v}.q <= 4 AND {v}.p = {b}"),
+            format!("{v}.p = {a} AND {v}.q IS NULL"),
+            format!("{v}.p = {a} AND NOT ({v}.q = 2)"),
+            format!("{v}.p = {b} AND {v}.q <> 1"),
+        ],
+        "eq_eq" => {
+            let mut p = vec![format!("{v}.p = {a} AND {v}.q = 2.0"), format!("{v}.p = {a} AND {v}.q = 3.0")];
+            for q in [0, 2, 3, 5, 6, 8] {
+                p.push(format!("{v}.p = {a} AND {v}.q = {q}"));
+                p.push(format!("{v}.q = {q} AND {v}.p = {b}"));
+            }
+            p
+        }
+        "eq_or" => vec![format!("{v}.p = {a} OR {v}.q = 2"), format!("{v}.q > 7 OR {v}.p = {b}")],
+        "in" => vec![format!("{v}.p IN [{a}]"), format!("{v}.p IN [{a}, {b}]")],
+        "is_null" => vec![format!("{v}.p IS NULL")],
+        "is_not_null" => vec![format!("{v}.p IS NOT NULL")],
+        "not" => vec![format!("NOT ({v}.p = {a})"), format!("NOT ({v}.p > {b})"), format!("NOT ({v}.p <= {a})")],
+        "flipped" => vec![format!("{a} < {v}.p"), format!("{b} >= {v}.p"), format!("{a} = {v}.p"), format!("{a} >= {v}.p"), format!("{b} <= {v}.p"), format!("{b} > {v}.p")],
+        _ => unreachable!(),
+    }
+}
+
+/// fixed data sets of the matrix: (name, node `p` values, edge `p` values); None = property absent
+fn matrix_datasets() -> Vec<(&'static str, Vec<Option<Value>>, Vec<Option<Value>>)> {
+    let i = |x: i64| Some(Value::Int64(x));
+    let f = |x: f64| Some(Value::Float64(x));
+    let s = |x: &str| Some(vals::s(x));
+    let b = |x: bool| Some(Value::Bool(x));
+    vec![
+        ("ints", vec![i(0), i(1), i(1), i(2), i(3), None, i(7), i(8)], vec![i(7), i(8), i(9), i(1), None, i(1)]),
+        ("mixed_numeric", vec![i(1), f(1.0), f(1.5), i(2), f(2.0), f(7.0), i(7), None, f(7.5)], vec![i(1), f(1.0), f(7.5), i(7), f(8.0), f(1.5)]),
+        (
+            "special",
+            vec![f(f64::NAN), f(0.0), f(-0.0), i(0), Some(Value::Null), s("a"), b(true), i(1)],
+            vec![s("a"), s("zz"), b(true), b(false), f(f64::NAN), i(1)],
+        ),
+        ("strings_bools", vec![s("a"), s("a"), s("b"), s("zz"), b(true), b(false), None], vec![s("a"), b(true), s("b"), s("zz"), b(false)]),
+        ("nodes_low_edges_high", vec![i(0), i(1), i(2), i(3), f(1.5)], vec![i(7), i(8), i(9), f(7.5), i(7)]),
+        ("nodes_high_edges_low", vec![i(7), i(8), i(9), f(7.5)], vec![i(0), i(1), i(2), f(1.5), i(1)]),
+        ("nodes_strings_edges_numbers", vec![s("a"), s("zz"), s("b")], vec![i(1), i(7), f(1.5), f(7.0)]),
+        ("nodes_numbers_edges_strings_bools", vec![i(1), i(7), f(1.5), f(7.0)], vec![s("a"), s("zz"), b(true), b(false)]),
+        ("single_value_plus_other_kind", vec![i(1), i(1), s("a")], vec![i(7), i(7), b(true)]),
+        ("only_true", vec![b(true), b(true)], vec![b(true)]),
+        ("bool_plus_other_kind", vec![b(true), b(true), i(1)], vec![b(false), b(false), s("a")]),
+        ("string_plus_other_kind", vec![s("a"), s("a"), i(1)], vec![s("zz"), f(2.5)]),
+        // the zone map keeps the first value as min/max when later ones are incomparable (NaN)
+        ("numbers_then_nan", vec![i(1), f(1.5), f(f64::NAN)], vec![i(7), f(7.5), f(f64::NAN)]),
+        ("nan_then_numbers", vec![f(f64::NAN), i(1), f(1.5)], vec![f(f64::NAN), i(7)]),
+        ("zeros", vec![f(0.0), f(-0.0), i(0), i(1)], vec![f(-0.0), i(0), i(7)]),
+        ("high_numbers_then_nan", vec![i(3), f(9.5), f(f64::NAN)], vec![i(3), f(f64::NAN)]),
+    ]
+}
+
+fn matrix_graph(nodes_p: &[Option<Value>], edges_p: &[Option<Value>]) -> GraphSpec {
+    let mut g = GraphSpec::default();
+    let n = nodes_p.len().max(3);
+    for i in 0..n {
+        let mut props = vec![("uid".to_string(), Value::Int64(i as i64))];
+        if let Some(Some(v)) = nodes_p.get(i) {
+            props.push(("p".to_string(), v.clone()));
+        }
+        // q: 0..9 cyclic, absent on every fourth node
+        if i % 4 != 3 {
+            props.push(("q".to_string(), Value::Int64(((i * 3) % 10) as i64)));
+        }
+        let labels = if i % 3 == 2 { vec!["L1".to_string()] } else { vec!["L0".to_string()] };
+        g.nodes.push(qgen::NodeSpec { labels, props });
+    }
+    for (j, p) in edges_p.iter().enumerate() {
+        let mut props = vec![("uid".to_string(), Value::Int64(100 + j as i64))];
+        if let Some(v) = p {
+            props.push(("p".to_string(), v.clone()));
+        }
+        if j % 3 != 2 {
+            props.push(("q".to_string(), Value::Int64(((j * 7) % 10) as i64)));
+        }
+        g.edges.push(qgen::EdgeSpec { src: j % n, dst: (j * 2 + 1) % n, ty: "T0".to_string(), props });
+    }
+    g
+}
+
+fn matrix(rep: &mut Report) {
+    let datasets = matrix_datasets();
+    struct Ds {
+        name: &'static str,
+        graph: GraphSpec,
+        base: qgen::Built,
+        plain: qgen::Built,
+        indexed: qgen::Built,
+    }
+    let dss: Vec<Ds> = datasets
+        .iter()
+        .map(|(name, np, ep)| {
+            let graph = matrix_graph(np, ep);
+            Ds {
+                name,
+                base: qgen::build(&graph, false),
+                plain: qgen::build(&graph, false),
+                indexed: build_variant(&graph, false, IdxMode::After, &["p"]),
+                graph,
+            }
+        })
+        .collect();
+    let mut failing_cells = 0u64;
+    let mut cells = 0u64;
+    for shape in SHAPES {
+        let lit_types: Vec<&str> = if shape == "is_null" || shape == "is_not_null" { vec!["-"] } else { LIT_TYPES.to_vec() };
+        for lt in lit_types {
+            for target in ["node", "edge"] {
+                let var = if target == "node" { "n" } else { "r" };
+                let preds = shape_preds(shape, if lt == "-" { "Int" } else { lt }, var);
+                // GQL's WHERE has neither IN nor IS [NOT] NULL; everything else runs through both front ends
+                let gql_ok = !matches!(shape, "in" | "is_null" | "is_not_null") && !preds.iter().any(|p| p.contains(" IS NULL"));
+                let mut texts: Vec<(Lang, String)> = Vec::new();
+                for p in &preds {
+                    for lang in [Lang::Gql, Lang::Cypher] {
+                        if lang == Lang::Gql && (!gql_ok || p.contains(" IS NULL")) {
+                            continue;
+                        }
+                        if target == "node" {
+                            texts.push((lang, format!("MATCH (n) WHERE {p} RETURN n.uid AS c1")));
+                            texts.push((lang, format!("MATCH (n:L0) WHERE {p} RETURN n.uid AS c1")));
+                        } else {
+                            texts.push((lang, format!("MATCH (a)-[r]->(b) WHERE {p} RETURN r.uid AS c1")));
+                        }
+                    }
+                }
+                for (path, phys, use_index) in PATHS {
+                    cells += 1;
+                    let mut kinds: BTreeMap<String, serde_json::Value> = BTreeMap::new();
+                    for ds in &dss {
+                        for (lang, text) in &texts {
+                            let base = run_text(&ds.base.db, *lang, text, BASE);
+                            let vdb = if use_index { &ds.indexed.db } else { &ds.plain.db };
+                            let got = run_text(vdb, *lang, text, phys);
+                            rep.count("matrix.executions", 2);
+                            if let Outcome::Rows(r) = &base {
+                                if !r.is_empty() {
+                                    rep.count("matrix.baseline_nonempty", 1);
+                                }
+                            } else {
+                                rep.count("matrix.baseline_not_rows", 1);
+                            }
+                            for k in diff_kinds(&base, &got, false) {
+                                kinds.entry(k).or_insert_with(|| {
+                                    json!({"query": text, "lang": lang.name(), "dataset": ds.name, "graph": qgen::graph_json(&ds.graph), "index_on": if use_index { "p" } else { "-" },
+                                           "expected_scan_and_generic_filter": base.brief(), "got": got.brief()})
+                                });
+                            }
+                        }
+                    }
+                    if !kinds.is_empty() {
+                        failing_cells += 1;
+                    }
+                    for (k, detail) in kinds {
+                        rep.deviation(&format!("c10:cell|{shape}|{lt}|{target}|{path}={k}"), detail);
+                    }
+                }
+            }
+        }
+    }
+    rep.count("matrix.cells", cells);
+    rep.count("matrix.cells_failing", failing_cells);
+    rep.evals(cells);
+}
+
+
+// ------------------------------------------------------------------------------------------
+// part 1b: directed factorized-vs-flat set (2–3-hop chains, filters and aggregates above)
+// ------------------------------------------------------------------------------------------
+
+fn fact_graphs() -> Vec<(&'static str, GraphSpec)> {
+    let node = |i: usize, k: Option<i64>, label: &str| {
+        let mut props = vec![("uid".to_string(), Value::Int64(i as i64))];
+        if let Some(k) = k {
+            props.push(("k".to_string(), Value::Int64(k)));
+        }
+        qgen::NodeSpec { labels: vec![label.to_string()], props }
+    };
+    let edge = |j: usize, s: usize, d: usize, ty: &str, w: Option<i64>| {
+        let mut props = vec![("uid".to_string(), Value::Int64(100 + j as i64))];
+        if let Some(w) = w {
+            props.push(("w".to_string(), Value::Int64(w)));
+        }
+        qgen::EdgeSpec { src: s, dst: d, ty: ty.to_string(), props }
+    };
+    let nodes4 = || vec![node(0, Some(3), "L0"), node(1, Some(1), "L1"), node(2, None, "L0"), node(3, Some(2), "L1")];
+    vec![
+        ("no_edges", GraphSpec { nodes: nodes4(), edges: vec![] }),
+        ("first_hop_only", GraphSpec { nodes: nodes4(), edges: vec![edge(0, 0, 1, "T0", Some(2)), edge(1, 0, 2, "T0", Some(5)), edge(2, 3, 2, "T1", None)] }),
+        ("chain", GraphSpec { nodes: nodes4(), edges: vec![edge(0, 0, 1, "T0", Some(2)), edge(1, 1, 2, "T0", Some(5)), edge(2, 2, 3, "T1", None), edge(3, 3, 0, "T0", Some(1))] }),
+        (
+            "dense_loops_parallel",
+            GraphSpec {
+                nodes: nodes4(),
+                edges: vec![
+                    edge(0, 0, 1, "T0", Some(2)),
+                    edge(1, 0, 1, "T0", Some(4)),
+                    edge(2, 1, 1, "T1", Some(5)),
+                    edge(3, 1, 2, "T0", None),
+                    edge(4, 2, 0, "T1", Some(1)),
+                    edge(5, 2, 3, "T0", Some(7)),
+                    edge(6, 3, 3, "T0", Some(3)),
+                    edge(7, 3, 1, "T1", Some(2)),
+                ],
+            },
+        ),
+    ]
+}
+
+const FACT_TEXTS: &[&str] = &[
+    "MATCH (a)-[r]->(b)-[s]->(c) RETURN a.uid AS c1, r.uid AS c2, b.uid AS c3, s.uid AS c4, c.uid AS c5",
+    "MATCH (a)-[r]->(b)-[s]->(c)-[t]->(d) RETURN a.uid AS c1, b.uid AS c2, c.uid AS c3, d.uid AS c4",
+    "MATCH (a)-[]->(b)-[]->(c) RETURN a.uid AS c1, c.uid AS c2",
+    "MATCH (a:L0)-[r:T0]->(b)<-[s]-(c) RETURN a.uid AS c1, b.uid AS c2, c.uid AS c3",
+    "MATCH (a)-[r]-(b)-[s]-(c) RETURN a.uid AS c1, b.uid AS c2, c.uid AS c3",
+    "MATCH (a)-[r]->(b)-[s]->(c) WHERE a.k > 1 RETURN a.uid AS c1, c.uid AS c2",
+    "MATCH (a)-[r]->(b)-[s]->(c) WHERE c.k > 1 RETURN a.uid AS c1, c.uid AS c2",
+    "MATCH (a)-[r]->(b)-[s]->(c) WHERE r.w > 2 RETURN a.uid AS c1, c.uid AS c2",
+    "MATCH (a)-[r]->(b)-[s]->(c) WHERE b.k = 1 AND s.w > 1 RETURN a.uid AS c1, c.uid AS c2",
+    "MATCH (a)-[r]->(b)-[s]->(c) RETURN count(c) AS c1",
+    "MATCH (a)-[r]->(b)-[s]->(c) RETURN count(a) AS c1",
+    "MATCH (a)-[r]->(b)-[s]->(c) RETURN count(b) AS c1, count(c) AS c2",
+    "MATCH (a)-[r]->(b)-[s]->(c) RETURN sum(c.k) AS c1",
+    "MATCH (a)-[r]->(b)-[s]->(c) RETURN min(a.k) AS c1, max(c.k) AS c2, avg(b.k) AS c3",
+    "MATCH (a)-[r]->(b)-[s]->(c) RETURN min(c) AS c1",
+    "MATCH (a)-[r]->(b)-[s]->(c) RETURN count(DISTINCT c) AS c1",
+    "MATCH (a)-[r]->(b)-[s]->(c) RETURN a.uid AS c1, count(c) AS c2",
+    "MATCH (a)-[r]->(b)-[s]->(c) WHERE a.k > 1 RETURN count(c) AS c1",
+    "MATCH (a)-[r]->(b)-[s]->(c) WHERE c.k > 1 RETURN count(c) AS c1",
+    "MATCH (a)-[r]->(b)-[s]->(c)-[t]->(d) RETURN count(d) AS c1",
+    "MATCH (a:L0)-[r]->(b)-[s]->(c) RETURN count(c) AS c1",
+    "MATCH (a)-[r:T0]->(b)-[s:T1]->(c) RETURN count(c) AS c1, count(a) AS c2",
+    // a node variable mentioned twice in one path
+    "MATCH (a)-[r]->(a)-[s]->(b) RETURN a.uid AS c1, b.uid AS c2",
+    "MATCH (a)-[r]->(b)-[s]->(a) RETURN a.uid AS c1, b.uid AS c2",
+    "MATCH (a)-[r]->(b)-[s]->(a) RETURN count(b) AS c1",
+];
+
+fn factorized_set(rep: &mut Report) {
+    for (gname, g) in fact_graphs() {
+        let flat = qgen::build(&g, false);
+        let fact = qgen::build(&g, true);
+        for text in FACT_TEXTS {
+            for lang in [Lang::Gql, Lang::Cypher] {
+                let base = run_text(&flat.db, lang, text, BASE);
+                if matches!(base, Outcome::Error(_)) {
+                    rep.count("factorized_set.rejected", 1);
+                    continue;
+                }
+                let got = run_text(&fact.db, lang, text, Phys { factorized: true, ..BASE });
+                rep.eval();
+                rep.count("factorized_set.pairs", 1);
+                if let Outcome::Rows(r) = &base {
+                    if !r.is_empty() {
+                        rep.count("factorized_set.baseline_nonempty", 1);
+                    }
+                }
+                for k in diff_kinds(&base, &got, false) {
+                    rep.deviation(
+                        &format!("c10:fact|{}|{text}|{gname}={k}", lang.name()),
+                        json!({"query": text, "lang": lang.name(), "graph": qgen::graph_json(&g), "expected_flat": base.brief(), "got_factorized": got.brief()}),
+                    );
+                }
+            }
+        }
+    }
+}
+
+// ------------------------------------------------------------------------------------------
+// cell form of a reduced random witness
+// ------------------------------------------------------------------------------------------
+
+fn first_lit(p: &Pred) -> Option<Value> {
+    match p {
+        Pred::Cmp(a, _, b) => match (a, b) {
+            (Expr::Lit(v), _) | (_, Expr::Lit(v)) => Some(v.clone()),
+            _ => None,
+        },
+        Pred::And(a, b) | Pred::Or(a, b) => first_lit(a).or_else(|| first_lit(b)),
+        Pred::Not(a) => first_lit(a),
+        Pred::In(_, l) => l.first().cloned(),
+        Pred::IsNull(..) => None,
+    }
+}
+
+/// `v.k op literal`, also written the other way round (the operator is mirrored)
+fn is_prop_cmp_lit(p: &Pred) -> Option<(&String, &String, Cmp, &Value)> {
+    match p {
+        Pred::Cmp(Expr::Prop(v, k), op, Expr::Lit(l)) => Some((v, k, *op, l)),
+        Pred::Cmp(Expr::Lit(l), op, Expr::Prop(v, k)) => {
+            let m = match op {
+                Cmp::Lt => Cmp::Gt,
+                Cmp::Le => Cmp::Ge,
+                Cmp::Gt => Cmp::Lt,
+                Cmp::Ge => Cmp::Le,
+                o => *o,
+            };
+            Some((v, k, m, l))
+        }
+        _ => None,
+    }
+}
+
+fn lit_cell_type(v: &Value) -> Option<&'static str> {
+    match qgen::lit_type(v) {
+        t @ ("Int" | "FloatIntegral" | "Float" | "String" | "Bool") => Some(t),
+        _ => None,
+    }
+}
+
+/// (shape, literal type, target) when the reduced query has the form of a matrix cell
+fn cell_of(q: &Query) -> Option<(String, String, &'static str)> {
+    if q.matches.len() != 1 || q.matches[0].paths.len() != 1 || q.unwind.is_some() || q.with.is_some() || q.mutation.is_some() {
+        return None;
+    }
+    if !q.order.is_empty() || q.has_agg() {
+        return None;
+    }
+    let path = &q.matches[0].paths[0];
+    if path.steps.len() > 1 || path.steps.iter().any(|(e, _)| e.hops.is_some()) {
+        return None;
+    }
+    // inline property maps are equality conjuncts
+    let mut pred: Option<Pred> = q.filter.clone();
+    let mut add = |v: &str, props: &[(String, Value)]| {
+        for (k, val) in props {
+            let c = Pred::Cmp(Expr::Prop(v.to_string(), k.clone()), Cmp::Eq, Expr::Lit(val.clone()));
+            pred = Some(match pred.take() {
+                None => c,
+                Some(p) => Pred::And(Box::new(c), Box::new(p)),
+            });
+        }
+    };
+    add(&path.start.var, &path.start.props);
+    for (e, n) in &path.steps {
+        if let Some(v) = &e.var {
+            add(v, &e.props);
+        }
+        add(&n.var, &n.props);
+    }
+    let pred = pred?;
+    let mut vars = BTreeSet::new();
+    pred.vars(&mut vars);
+    if vars.len() != 1 {
+        return None;
+    }
+    let var = vars.into_iter().next().unwrap();
+    let target = if path.steps.is_empty() && path.start.var == var {
+        "node"
+    } else if path.steps.len() == 1 && path.steps[0].0.var.as_deref() == Some(var.as_str()) {
+        "edge"
+    } else {
+        return None;
+    };
+    let lit = first_lit(&pred);
+    let lt = match &lit {
+        Some(v) => lit_cell_type(v)?.to_string(),
+        None => "-".to_string(),
+    };
+    let shape = match &pred {
+        Pred::Cmp(Expr::Prop(..), op, Expr::Lit(_)) => op.name().to_string(),
+        Pred::Cmp(Expr::Lit(_), _, Expr::Prop(..)) => "flipped".to_string(),
+        Pred::And(a, b) => {
+            let (ca, cb) = (is_prop_cmp_lit(a), is_prop_cmp_lit(b));
+            match (ca, cb) {
+                (Some((_, ka, oa, _)), Some((_, kb, ob, _))) if ka == kb && oa != Cmp::Eq && ob != Cmp::Eq && oa != Cmp::Ne && ob != Cmp::Ne => "range_conj".to_string(),
+                (Some((_, ka, Cmp::Eq, _)), Some((_, kb, Cmp::Eq, _))) if ka != kb => "eq_eq".to_string(),
+                (Some((_, _, Cmp::Eq, _)), _) | (_, Some((_, _, Cmp::Eq, _))) => "eq_and".to_string(),
+                _ => return None,
+            }
+        }
+        Pred::Or(a, b) => match (is_prop_cmp_lit(a), is_prop_cmp_lit(b)) {
+            (Some((_, _, Cmp::Eq, _)), _) | (_, Some((_, _, Cmp::Eq, _))) => "eq_or".to_string(),
+            _ => return None,
+        },
+        Pred::In(Expr::Prop(..), _) => "in".to_string(),
+        Pred::IsNull(Expr::Prop(..), true) => "is_null".to_string(),
+        Pred::IsNull(Expr::Prop(..), false) => "is_not_null".to_string(),
+        Pred::Not(_) => "not".to_string(),
+        _ => return None,
+    };
+    // for eq_and / eq_or the literal type is the equality's
+    let lt = match &pred {
+        Pred::And(a, b) | Pred::Or(a, b) if shape == "eq_and" || shape == "eq_or" => {
+            let eq = [a, b].into_iter().find_map(|x| is_prop_cmp_lit(x).filter(|c| c.2 == Cmp::Eq));
+            match eq {
+                Some((_, _, _, l)) => lit_cell_type(l)?.to_string(),
+                None => lt,
+            }
+        }
+        _ => lt,
+    };
+    Some((shape, lt, target))
+}
+
+
+// ------------------------------------------------------------------------------------------
+// part 1c: directed texts whose optimized plan stacks one filter on another
+// ------------------------------------------------------------------------------------------
+
+/// The generic FilterOperator loses the lower of two directly stacked filters (known defect of
+/// the baseline strategy itself); every path that serves the lower filter through a node list
+/// or prunes it then changes the answer. One text per path, enumerated on every run.
+fn stacked_filter_set(rep: &mut Report) {
+    let i = Value::Int64;
+    let node = |uid: i64, k: Option<i64>, sv: Option<&str>| {
+        let mut props = vec![("uid".to_string(), i(uid))];
+        if let Some(k) = k {
+            props.push(("k".to_string(), i(k)));
+        }
+        if let Some(x) = sv {
+            props.push(("s".to_string(), vals::s(x)));
+        }
+        qgen::NodeSpec { labels: vec!["L0".to_string()], props }
+    };
+    let g = GraphSpec { nodes: vec![node(0, Some(1), Some("a")), node(1, Some(5), Some("a")), node(2, None, Some("a")), node(3, Some(1), Some("b")), node(4, Some(7), None)], edges: vec![] };
+    let texts: [(Lang, &str); 3] = [
+        (Lang::Gql, "MATCH (n {k: 1}) WHERE n.s = 'a' RETURN n.uid AS c1"),
+        (Lang::Gql, "MATCH (n) WHERE n.k < 3 WITH n WHERE n.s = 'a' RETURN n.uid AS c1"),
+        (Lang::Cypher, "MATCH (n) WHERE n.k >= 1 AND n.k <= 5 WITH n WHERE n.s = 'a' RETURN n.uid AS c1"),
+    ];
+    let base = qgen::build(&g, false);
+    for (lang, text) in texts {
+        let expected = run_text(&base.db, lang, text, BASE);
+        for v in SINGLES {
+            if v.class == "factorized" || v.class == "all" {
+                continue;
+            }
+            let b = build_variant(&g, false, v.idx, &["k"]);
+            let got = run_text(&b.db, lang, text, v.phys);
+            rep.eval();
+            rep.count("stacked_filter_set.pairs", 1);
+            if std::env::var("C10_DEBUG").is_ok() {
+                eprintln!("{text} [{}] expected {} / got {}", v.class, expected.brief().replace('\n', ";"), got.brief().replace('\n', ";"));
+            }
+            for _k in diff_kinds(&expected, &got, false).into_iter().take(1) {
+                rep.deviation(
+                    &format!("c10:rand|stacked_filters|cfg={}|differs", v.class),
+                    json!({"query": text, "lang": lang.name(), "graph": qgen::graph_json(&g), "indexed": ["k"], "configuration": v.class,
+                           "expected_scan_and_generic_filter": expected.brief(), "got": got.brief(),
+                           "note": "the baseline applies only the upper of the two stacked filters; the variant applies both"}),
+                );
+            }
+        }
+    }
+}
+
+// ------------------------------------------------------------------------------------------
+// part 2: random graphs x random queries x configurations
+// ------------------------------------------------------------------------------------------
+
+fn idx_subset(r: &mut Rng, case: u64) -> Vec<&'static str> {
+    // cycle through the 7 non-empty subsets so that every one is covered, order randomised
+    let mask = 1 + ((case + r.below(7) as u64) % 7) as usize;
+    qgen::IDX_KEYS.iter().enumerate().filter(|(i, _)| mask & (1 << i) != 0).map(|(_, k)| *k).collect()
+}
+
+fn variant_outcome(g: &GraphSpec, q: &Query, text: &str, v: &Variant, keys: &[&str]) -> Outcome {
+    let b = build_variant(g, v.phys.factorized, v.idx, keys);
+    let _ = q;
+    run_text(&b.db, q.lang, text, v.phys)
+}
+
+fn baseline_outcome(g: &GraphSpec, q: &Query, text: &str) -> Outcome {
+    let b = qgen::build(g, false);
+    run_text(&b.db, q.lang, text, BASE)
+}
+
+fn fails_under(g: &GraphSpec, q: &Query, v: &Variant, keys: &[&str]) -> Vec<String> {
+    let text = q.text();
+    let base = baseline_outcome(g, q, &text);
+    if matches!(base, Outcome::Error(_)) {
+        // a reduction step must not turn the witness into a rejected text
+        let got = variant_outcome(g, q, &text, v, keys);
+        return diff_kinds(&base, &got, q.ordered()).into_iter().filter(|k| k.starts_with("error_only")).collect();
+    }
+    let got = variant_outcome(g, q, &text, v, keys);
+    diff_kinds(&base, &got, q.ordered())
+}
+
+
+/// Does the optimized logical plan of `q` (what the session plans) place a Filter directly on
+/// another Filter? The generic FilterOperator then loses the lower filter (known defect), and
+/// any path that serves the lower filter through a node list changes the answer.
+fn has_stacked_filters(g: &GraphSpec, q: &Query) -> bool {
+    use grafeo_engine::query::plan::LogicalOperator as LO;
+    let text = q.text();
+    let plan = match q.lang {
+        Lang::Gql => grafeo_engine::query::translate_gql(&text),
+        Lang::Cypher => grafeo_engine::query::translate_cypher(&text),
+    };
+    let Ok(plan) = plan else { return false };
+    let b = qgen::build(g, false);
+    let Ok(opt) = grafeo_engine::query::optimizer::Optimizer::from_store(b.db.store()).optimize(plan) else { return false };
+    fn walk(op: &LO) -> bool {
+        let kids: Vec<&LO> = match op {
+            LO::Filter(f) => {
+                if matches!(f.input.as_ref(), LO::Filter(_)) {
+                    return true;
+                }
+                vec![f.input.as_ref()]
+            }
+            LO::Return(r) => vec![r.input.as_ref()],
+            LO::Project(p) => vec![p.input.as_ref()],
+            LO::Expand(e) => vec![e.input.as_ref()],
+            LO::Join(j) => vec![j.left.as_ref(), j.right.as_ref()],
+            LO::LeftJoin(j) => vec![j.left.as_ref(), j.right.as_ref()],
+            LO::Aggregate(a) => vec![a.input.as_ref()],
+            LO::Sort(a) => vec![a.input.as_ref()],
+            LO::Limit(a) => vec![a.input.as_ref()],
+            LO::Skip(a) => vec![a.input.as_ref()],
+            LO::Distinct(a) => vec![a.input.as_ref()],
+            LO::Unwind(a) => vec![a.input.as_ref()],
+            LO::NodeScan(n) => n.input.iter().map(|b| b.as_ref()).collect(),
+            _ => vec![],
+        };
+        kids.into_iter().any(walk)
+    }
+    walk(&opt.root)
+}
+
+
+/// the same graph loaded in another physical order (nodes and edges reversed)
+fn reversed(g: &GraphSpec) -> GraphSpec {
+    let n = g.nodes.len();
+    let mut r = GraphSpec { nodes: g.nodes.iter().rev().cloned().collect(), edges: g.edges.iter().rev().cloned().collect() };
+    for e in &mut r.edges {
+        e.src = n - 1 - e.src;
+        e.dst = n - 1 - e.dst;
+    }
+    r
+}
+
+/// Does the BASELINE's own answer change when the same graph is loaded in another order?
+/// Then the text's result depends on physical ids / row order (executor defects outside C10:
+/// a WITH projection that misaligns columns, an edge id read as a node id, ...), and any path
+/// that enumerates nodes in another order than the scan (index node lists are hash ordered)
+/// changes the answer for that reason alone.
+fn baseline_depends_on_physical_order(g: &GraphSpec, q: &Query, text: &str) -> bool {
+    let a = baseline_outcome(g, q, text);
+    let b = baseline_outcome(&reversed(g), q, text);
+    qgen::diff(&a, &b, q.ordered()).is_some()
+}
+
+const SINGLES: &[Variant] = &[
+    Variant { name: "zone_only", class: "zone_map", phys: Phys { zone: true, ..BASE }, idx: IdxMode::None },
+    Variant { name: "index_after_load", class: "index", phys: Phys { index: true, ..BASE }, idx: IdxMode::After },
+    Variant { name: "range_only", class: "range", phys: Phys { range: true, ..BASE }, idx: IdxMode::None },
+    Variant { name: "factorized_only", class: "factorized", phys: Phys { factorized: true, ..BASE }, idx: IdxMode::None },
+    Variant { name: "all_paths", class: "all", phys: Phys { zone: true, index: true, range: true, factorized: false }, idx: IdxMode::After },
+];
+
+fn random_part(rep: &mut Report, tier: Tier, seed: u64) {
+    let n_cases = tier.pick(600u64, 40_000u64);
+    let budget = tier.pick(220usize, 350usize);
+    let mut reduced_cache: BTreeMap<String, Vec<String>> = BTreeMap::new();
+    let mut rejected_examples: BTreeMap<String, String> = BTreeMap::new();
+    for case in 0..n_cases {
+        let mut r = Rng::new(seed, "c10", case);
+        let g = qgen::gen_graph(&mut r, tier.pick(12, 14), tier.pick(20, 26));
+        let lang = if r.chance(0.6) { Lang::Gql } else { Lang::Cypher };
+        let q = qgen::gen_query(&mut r, Profile::Physical, lang, false);
+        let keys = idx_subset(&mut r, case);
+        let text = q.text();
+        qgen::tick(&text);
+        let base = baseline_outcome(&g, &q, &text);
+        match &base {
+            Outcome::Error(e) => {
+                rep.count(&format!("random.rejected.{}", lang.name()), 1);
+                let class: String = e.chars().take(60).collect();
+                rejected_examples.entry(class).or_insert_with(|| text.clone());
+                continue;
+            }
+            Outcome::Panic(site, _) => {
+                rep.count("random.baseline_panic", 1);
+                let _ = site;
+                continue;
+            }
+            Outcome::Rows(rows) => {
+                rep.eval();
+                rep.count(&format!("random.queries.{}", lang.name()), 1);
+                rep.count(&format!("random.index_subset.{}", keys.join("+")), 1);
+                if !rows.is_empty() && (q.filter.is_some() || text.contains('{')) {
+                    rep.nontrivial(hash_str(&q.skeleton()));
+                    rep.count("random.baseline_nonempty_filtered", 1);
+                }
+                if rows.is_empty() {
+                    rep.count("random.baseline_empty", 1);
+                }
+                rep.sample(json!({"lang": lang.name(), "query": text, "indexed": keys, "baseline_rows": rows.len()}));
+            }
+        }
+        let ordered = q.ordered();
+        let mut failing: Vec<(&Variant, Vec<String>)> = Vec::new();
+        for v in VARIANTS {
+            let got = variant_outcome(&g, &q, &text, v, &keys);
+            rep.count(&format!("random.executed.{}", v.name), 1);
+            let kinds = diff_kinds(&base, &got, ordered);
+            if !kinds.is_empty() {
+                rep.count(&format!("random.mismatch.{}", v.name), 1);
+                failing.push((v, kinds));
+            }
+        }
+        if failing.is_empty() {
+            continue;
+        }
+        rep.count("random.cases_with_mismatch", 1);
+        if baseline_depends_on_physical_order(&g, &q, &text) {
+            rep.count("random.mismatch_with_order_dependent_baseline", 1);
+            rep.deviation(
+                "c10:rand|baseline_depends_on_physical_order|differs",
+                json!({"query": text, "lang": lang.name(), "graph": qgen::graph_json(&g), "indexed": keys, "case": case,
+                       "failing_variants": failing.iter().map(|(v, k)| format!("{}:{}", v.name, k.join("+"))).collect::<Vec<_>>(),
+                       "baseline": base.brief(), "baseline_on_the_same_graph_loaded_in_reverse_order": baseline_outcome(&reversed(&g), &q, &text).brief()}),
+            );
+            continue;
+        }
+        // one reduction per failing class
+        let mut seen_class: BTreeSet<&str> = BTreeSet::new();
+        for (v, kinds0) in &failing {
+            if !seen_class.insert(v.class) {
+                continue;
+            }
+            // "all": only reduce when no single-path class already failed on this case
+            if v.class.starts_with("all") && failing.iter().any(|(o, _)| !o.class.starts_with("all")) {
+                continue;
+            }
+            let pre = format!("{}|{}|{}", q.skeleton(), v.class, kinds0.join(","));
+            if let Some(sigs) = reduced_cache.get(&pre) {
+                for s in sigs.clone() {
+                    rep.deviation(&s, json!({"query": text, "case": case, "note": "same unreduced skeleton and configuration class as an earlier reduced case"}));
+                }
+                continue;
+            }
+            let vv: Variant = **v;
+            let kk = keys.clone();
+            let mut fails = |g2: &GraphSpec, q2: &Query| !fails_under(g2, q2, &vv, &kk).is_empty();
+            let (g2, q2, used) = qgen::reduce(&g, &q, budget, &mut fails);
+            rep.count("random.reducer_steps", used as u64);
+            let text2 = q2.text();
+            let base2 = baseline_outcome(&g2, &q2, &text2);
+            // attribute to single paths where possible
+            let mut attributions: Vec<(&'static str, Vec<String>, Outcome)> = Vec::new();
+            for s in SINGLES {
+                if s.class == "all" {
+                    continue;
+                }
+                let got = variant_outcome(&g2, &q2, &text2, s, &kk);
+                let k = diff_kinds(&base2, &got, q2.ordered());
+                if !k.is_empty() {
+                    attributions.push((s.class, k, got));
+                }
+            }
+            if attributions.is_empty() {
+                let got = variant_outcome(&g2, &q2, &text2, &vv, &kk);
+                let k = diff_kinds(&base2, &got, q2.ordered());
+                let class: &'static str = match vv.class {
+                    "zone" => "zone_map",
+                    c => c,
+                };
+                attributions.push((class, if k.is_empty() { kinds0.clone() } else { k }, got));
+            }
+            // index maintenance: does the way the index came into being matter?
+            let mut idx_note = String::new();
+            if attributions.iter().any(|(c, _, _)| *c == "index") {
+                let modes: Vec<&str> = VARIANTS
+                    .iter()
+                    .filter(|x| x.class == "index")
+                    .filter(|x| !diff_kinds(&base2, &variant_outcome(&g2, &q2, &text2, x, &kk), q2.ordered()).is_empty())
+                    .map(|x| x.name)
+                    .collect();
+                if modes.len() != 3 {
+                    idx_note = format!("[{}]", modes.join(","));
+                }
+            }
+            let cell = cell_of(&q2);
+            let stacked = has_stacked_filters(&g2, &q2);
+            let mut sigs = Vec::new();
+            for (class, kinds, got) in &attributions {
+                for k in kinds {
+                    let sig = match (&cell, *class) {
+                        (Some((shape, lt, target)), "zone_map" | "index" | "range") if idx_note.is_empty() && !stacked => format!("c10:cell|{shape}|{lt}|{target}|{class}={k}"),
+                        _ if stacked => format!("c10:rand|stacked_filters|cfg={class}|differs"),
+                        _ => format!("c10:rand|{}|cfg={class}{idx_note}|{k}", q2.skeleton()),
+                    };
+                    rep.deviation(
+                        &sig,
+                        json!({
+                            "reduced_query": text2, "lang": q2.lang.name(), "reduced_graph": qgen::graph_json(&g2), "indexed": kk, "configuration": class,
+                            "optimized_plan_has_filter_directly_on_filter": stacked,
+                            "expected_scan_and_generic_filter": base2.brief(), "got": got.brief(),
+                            "original_query": text, "original_variant": vv.name, "case": case, "reducer_steps": used,
+                        }),
+                    );
+                    sigs.push(sig);
+                }
+            }
+            reduced_cache.insert(pre, sigs);
+        }
+    }
+    rep.extra.insert("random.rejected_examples".into(), json!(rejected_examples));
+}
+
+// ------------------------------------------------------------------------------------------
+// part 3: histories — one long-lived session vs. freshly built databases
+// ------------------------------------------------------------------------------------------
+
+#[derive(Clone, Debug)]
+enum Op {
+    AddNode(qgen::NodeSpec),
+    AddEdge(qgen::EdgeSpec),
+    SetNodeProp(usize, String, Value),
+    RemoveNodeProp(usize, String),
+    SetEdgeProp(usize, String, Value),
+    DeleteEdge(usize),
+    DeleteNode(usize),
+    AddLabel(usize, String),
+    RemoveLabel(usize, String),
+    CreateIndex(String),
+    DropIndex(String),
+}
+
+impl Op {
+    fn kind(&self) -> &'static str {
+        match self {
+            Op::AddNode(_) => "add_node",
+            Op::AddEdge(_) => "add_edge",
+            Op::SetNodeProp(..) => "set_node_prop",
+            Op::RemoveNodeProp(..) => "remove_node_prop",
+            Op::SetEdgeProp(..) => "set_edge_prop",
+            Op::DeleteEdge(_) => "delete_edge",
+            Op::DeleteNode(_) => "delete_node",
+            Op::AddLabel(..) => "add_label",
+            Op::RemoveLabel(..) => "remove_label",
+            Op::CreateIndex(_) => "create_index",
+            Op::DropIndex(_) => "drop_index",
+        }
+    }
+    fn show(&self) -> String {
+        match self {
+            Op::AddNode(n) => format!("add_node :{} {:?}", n.labels.join(":"), n.props.iter().map(|(k, v)| format!("{k}={}", qgen::lit_text(v))).collect::<Vec<_>>()),
+            Op::AddEdge(e) => format!("add_edge #{}-[:{}]->#{} {:?}", e.src, e.ty, e.dst, e.props.iter().map(|(k, v)| format!("{k}={}", qgen::lit_text(v))).collect::<Vec<_>>()),
+            Op::SetNodeProp(i, k, v) => format!("set node #{i}.{k} = {}", qgen::lit_text(v)),
+            Op::RemoveNodeProp(i, k) => format!("remove node #{i}.{k}"),
+            Op::SetEdgeProp(i, k, v) => format!("set edge #{i}.{k} = {}", qgen::lit_text(v)),
+            Op::DeleteEdge(i) => format!("delete edge #{i}"),
+            Op::DeleteNode(i) => format!("delete node #{i} (with its edges)"),
+            Op::AddLabel(i, l) => format!("add label #{i}:{l}"),
+            Op::RemoveLabel(i, l) => format!("remove label #{i}:{l}"),
+            Op::CreateIndex(k) => format!("create index on {k}"),
+            Op::DropIndex(k) => format!("drop index on {k}"),
+        }
+    }
+}
+
+struct Live {
+    b: qgen::Built,
+    /// (src node slot, dst node slot) per edge slot
+    ends: Vec<(usize, usize)>,
+    node_alive: Vec<bool>,
+    edge_alive: Vec<bool>,
+}
+
+impl Live {
+    fn new(g: &GraphSpec, b: qgen::Built) -> Live {
+        Live { ends: g.edges.iter().map(|e| (e.src, e.dst)).collect(), node_alive: vec![true; g.nodes.len()], edge_alive: vec![true; g.edges.len()], b }
+    }
+    /// Applies `op`; ops that refer to a missing entity are skipped (keeps reduced histories valid).
+    fn apply(&mut self, op: &Op, with_indexes: bool) {
+        let db = &self.b.db;
+        let node = |s: &Live, i: usize| -> Option<NodeId> { if i < s.b.nodes.len() && s.node_alive[i] { Some(s.b.nodes[i]) } else { None } };
+        let edge = |s: &Live, i: usize| -> Option<EdgeId> { if i < s.b.edges.len() && s.edge_alive[i] { Some(s.b.edges[i]) } else { None } };
+        match op {
+            Op::AddNode(n) => {
+                let labels: Vec<&str> = n.labels.iter().map(|s| s.as_str()).collect();
+                let id = db.create_node_with_props(&labels, n.props.iter().map(|(k, v)| (k.as_str(), v.clone())));
+                self.b.nodes.push(id);
+                self.node_alive.push(true);
+            }
+            Op::AddEdge(e) => {
+                if let (Some(s), Some(d)) = (node(self, e.src), node(self, e.dst)) {
+                    let id = db.create_edge_with_props(s, d, &e.ty, e.props.iter().map(|(k, v)| (k.as_str(), v.clone())));
+                    self.b.edges.push(id);
+                    self.edge_alive.push(true);
+                    self.ends.push((e.src, e.dst));
+                }
+            }
+            Op::SetNodeProp(i, k, v) => {
+                if let Some(id) = node(self, *i) {
+                    db.set_node_property(id, k, v.clone());
+                }
+            }
+            Op::RemoveNodeProp(i, k) => {
+                if let Some(id) = node(self, *i) {
+                    db.remove_node_property(id, k);
+                }
+            }
+            Op::SetEdgeProp(i, k, v) => {
+                if let Some(id) = edge(self, *i) {
+                    db.set_edge_property(id, k, v.clone());
+                }
+            }
+            Op::DeleteEdge(i) => {
+                if let Some(id) = edge(self, *i) {
+                    db.delete_edge(id);
+                    self.edge_alive[*i] = false;
+                }
+            }
+            Op::DeleteNode(i) => {
+                if let Some(id) = node(self, *i) {
+                    for j in 0..self.ends.len() {
+                        if self.edge_alive[j] && (self.ends[j].0 == *i || self.ends[j].1 == *i) {
+                            db.delete_edge(self.b.edges[j]);
+                            self.edge_alive[j] = false;
+                        }
+                    }
+                    db.delete_node(id);
+                    self.node_alive[*i] = false;
+                }
+            }
+            Op::AddLabel(i, l) => {
+                if let Some(id) = node(self, *i) {
+                    db.add_node_label(id, l);
+                }
+            }
+            Op::RemoveLabel(i, l) => {
+                if let Some(id) = node(self, *i) {
+                    db.remove_node_label(id, l);
+                }
+            }
+            Op::CreateIndex(k) => {
+                if with_indexes {
+                    db.create_property_index(k);
+                }
+            }
+            Op::DropIndex(k) => {
+                if with_indexes {
+                    db.drop_property_index(k);
+                }
+            }
+        }
+    }
+}
+
+fn gen_op(r: &mut Rng, n_nodes: usize, n_edges: usize, uid: &mut i64) -> Op {
+    match r.below(20) {
+        0 | 1 => {
+            *uid += 1;
+            let mut n = qgen::gen_node(r, *uid);
+            if r.chance(0.5) {
+                // a label the database has never seen
+                n.labels.push("L9".to_string());
+            }
+            Op::AddNode(n)
+        }
+        2 | 3 => {
+            *uid += 1;
+            let mut e = qgen::gen_edge(r, n_nodes.max(1), 100 + *uid);
+            if r.chance(0.3) {
+                e.ty = "T9".to_string();
+            }
+            Op::AddEdge(e)
+        }
+        4..=8 => {
+            let key = (*r.pick(&["k", "w", "z", "k", "w"])).to_string();
+            let v = if r.chance(0.3) { Value::Int64(r.range(10, 15)) } else { qgen::node_prop_value(r, &key) };
+            Op::SetNodeProp(r.below(n_nodes.max(1)), key, v)
+        }
+        9 | 10 => Op::RemoveNodeProp(r.below(n_nodes.max(1)), (*r.pick(&["k", "w", "z"])).to_string()),
+        11 => {
+            let v = if r.chance(0.4) { Value::Int64(r.range(13, 20)) } else { qgen::edge_prop_value(r, "w") };
+            Op::SetEdgeProp(r.below(n_edges.max(1)), "w".to_string(), v)
+        }
+        12 => Op::DeleteEdge(r.below(n_edges.max(1))),
+        13 | 14 => Op::DeleteNode(r.below(n_nodes.max(1))),
+        15 => Op::AddLabel(r.below(n_nodes.max(1)), (*r.pick(&["L0", "L1", "L9"])).to_string()),
+        16 => Op::RemoveLabel(r.below(n_nodes.max(1)), (*r.pick(&["L0", "L1", "L2"])).to_string()),
+        17 | 18 => Op::CreateIndex((*r.pick(&qgen::IDX_KEYS)).to_string()),
+        _ => Op::DropIndex((*r.pick(&qgen::IDX_KEYS)).to_string()),
+    }
+}
+
+const WARM: Phys = Phys { zone: true, index: true, range: true, factorized: true };
+
+/// the graph a database currently holds, as a spec (nodes / edges in id order)
+fn spec_of(db: &GrafeoDB) -> GraphSpec {
+    let mut nodes: Vec<_> = db.iter_nodes().collect();
+    nodes.sort_by_key(|n| n.id.as_u64());
+    let idx: BTreeMap<u64, usize> = nodes.iter().enumerate().map(|(i, n)| (n.id.as_u64(), i)).collect();
+    let mut g = GraphSpec::default();
+    for n in &nodes {
+        let mut props: Vec<(String, Value)> = n.properties.iter().map(|(k, v)| (k.as_str().to_string(), v.clone())).collect();
+        props.sort_by(|a, b| a.0.cmp(&b.0));
+        g.nodes.push(qgen::NodeSpec { labels: n.labels.iter().map(|l| l.to_string()).collect(), props });
+    }
+    let mut edges: Vec<_> = db.iter_edges().collect();
+    edges.sort_by_key(|e| e.id.as_u64());
+    for e in &edges {
+        let (Some(s), Some(d)) = (idx.get(&e.src.as_u64()), idx.get(&e.dst.as_u64())) else { continue };
+        let mut props: Vec<(String, Value)> = e.properties.iter().map(|(k, v)| (k.as_str().to_string(), v.clone())).collect();
+        props.sort_by(|a, b| a.0.cmp(&b.0));
+        g.edges.push(qgen::EdgeSpec { src: *s, dst: *d, ty: e.edge_type.to_string(), props });
+    }
+    g
+}
+
+/// long-lived configurations of the history part; single paths first so that a static path
+/// defect cannot be mistaken for a maintenance defect through masking between paths
+const HCFG: [(&str, Phys); 5] = [
+    ("zone_map", Phys { zone: true, index: false, range: false, factorized: false }),
+    ("index", Phys { zone: false, index: true, range: false, factorized: false }),
+    ("range", Phys { zone: false, index: false, range: true, factorized: false }),
+    ("factorized", Phys { zone: false, index: false, range: false, factorized: true }),
+    ("everything_on", WARM),
+];
+const N_SINGLE: usize = 4;
+
+struct CfgOut {
+    /// the long-lived session on the long-lived database
+    warm: Outcome,
+    /// same configuration and same change history replayed on a new database (cold plan cache)
+    replayed: Outcome,
+    /// same configuration, database loaded directly with the final data (no change history)
+    fresh_final: Outcome,
+}
+
+struct StepOut {
+    /// cold baseline: data rebuilt + changes replayed, no index, all paths off, flat execution
+    expected: Outcome,
+    per_cfg: Vec<CfgOut>,
+}
+
+fn run_history(g: &GraphSpec, q: &Query, keys: &[&str], steps: &[Vec<Op>]) -> Vec<StepOut> {
+    let text = q.text();
+    let mut out = Vec::new();
+    let mut warm: Vec<Live> = HCFG.iter().map(|(_, p)| Live::new(g, build_variant(g, p.factorized, IdxMode::After, keys))).collect();
+    // sessions borrow the databases: keep the databases alive in `warm` and create sessions up front
+    let sessions: Vec<grafeo_engine::Session> = warm.iter().map(|w| w.b.db.session()).collect();
+    let mut indexed: BTreeSet<String> = keys.iter().map(|k| k.to_string()).collect();
+    for upto in 0..=steps.len() {
+        if upto > 0 {
+            for op in &steps[upto - 1] {
+                for w in warm.iter_mut() {
+                    w.apply(op, true);
+                }
+                match op {
+                    Op::CreateIndex(k) => {
+                        indexed.insert(k.clone());
+                    }
+                    Op::DropIndex(k) => {
+                        indexed.remove(k);
+                    }
+                    _ => {}
+                }
+            }
+        }
+        let mut cold = Live::new(g, qgen::build(g, false));
+        for st in &steps[..upto] {
+            for op in st {
+                cold.apply(op, false);
+            }
+        }
+        let expected = run_text(&cold.b.db, q.lang, &text, BASE);
+        let final_spec = spec_of(&cold.b.db);
+        let ik: Vec<&str> = indexed.iter().map(|s| s.as_str()).collect();
+        let mut per_cfg = Vec::new();
+        for (ci, (_, phys)) in HCFG.iter().enumerate() {
+            let mut rep = Live::new(g, build_variant(g, phys.factorized, IdxMode::After, keys));
+            for st in &steps[..upto] {
+                for op in st {
+                    rep.apply(op, true);
+                }
+            }
+            let replayed = run_text(&rep.b.db, q.lang, &text, *phys);
+            let ff = build_variant(&final_spec, phys.factorized, IdxMode::After, &ik);
+            let fresh_final = run_text(&ff.db, q.lang, &text, *phys);
+            let warm_out = run_session(&sessions[ci], q.lang, &text, *phys);
+            per_cfg.push(CfgOut { warm: warm_out, replayed, fresh_final });
+        }
+        out.push(StepOut { expected, per_cfg });
+    }
+    out
+}
+
+/// First (step, configuration) at which the long-lived database is wrong although a database
+/// freshly loaded with the same data under the same configuration is right. Where the fresh
+/// database is wrong too, a static path defect is at work on the final data (matrix / random
+/// part) and nothing can be said about maintenance. "everything_on" is judged only at steps
+/// where no single configuration has a static defect (paths can mask each other's defects, e.g.
+/// a clean zone map hides the index path's dropped conjunct until a removal marks it dirty).
+fn history_failure(res: &[StepOut], ordered: bool) -> (Option<(usize, String, Vec<String>)>, u64) {
+    let mut static_only = 0;
+    for (i, st) in res.iter().enumerate() {
+        let singles_clean = st.per_cfg[..N_SINGLE].iter().all(|c| diff_kinds(&st.expected, &c.fresh_final, ordered).is_empty());
+        for (ci, c) in st.per_cfg.iter().enumerate() {
+            let kw = diff_kinds(&st.expected, &c.warm, ordered);
+            if kw.is_empty() {
+                continue;
+            }
+            if !diff_kinds(&st.expected, &c.fresh_final, ordered).is_empty() || (ci >= N_SINGLE && !singles_clean) {
+                static_only += 1;
+                continue;
+            }
+            let class = if diff_kinds(&c.replayed, &c.warm, ordered).is_empty() { "maintenance" } else { "warm_cache" };
+            return (Some((i, format!("cfg={}|{class}", HCFG[ci].0), kw)), static_only);
+        }
+    }
+    (None, static_only)
+}
+
+/// Simple texts whose answer the data changes of a history are likely to move: one node (or
+/// one hop) with one or two atomic predicates over the indexable keys.
+fn history_query(r: &mut Rng, lang: Lang) -> Query {
+    let mut q = Query::empty(lang);
+    let label = match r.below(6) {
+        0 | 1 => Some((*r.pick(&qgen::LABELS)).to_string()),
+        2 => Some("L9".to_string()),
+        _ => None,
+    };
+    let start = qgen::NodePat { var: "n1".into(), label, props: vec![] };
+    let mut vars = vec![("n1".to_string(), false)];
+    let mut steps = Vec::new();
+    if r.chance(0.3) {
+        let ty = if r.chance(0.3) { Some((*r.pick(&["T0", "T1", "T9"])).to_string()) } else { None };
+        steps.push((qgen::EdgePat { var: Some("r1".into()), ty, dir: qgen::Dir::Out, props: vec![], hops: None }, qgen::NodePat { var: "n2".into(), label: None, props: vec![] }));
+        vars.push(("r1".to_string(), true));
+        vars.push(("n2".to_string(), false));
+    }
+    q.matches.push(qgen::MatchClause { optional: false, paths: vec![qgen::PathPat { start, steps }] });
+    let atom = |r: &mut Rng| {
+        let (v, is_edge) = r.pick(&vars).clone();
+        let key = if is_edge { "w".to_string() } else { (*r.pick(&["k", "w", "z"])).to_string() };
+        let lit = if r.chance(0.25) { Value::Int64(r.range(9, 15)) } else { qgen::lit_for_key(r, &key) };
+        let op = *r.pick(&[Cmp::Eq, Cmp::Eq, Cmp::Eq, Cmp::Gt, Cmp::Ge, Cmp::Lt, Cmp::Le, Cmp::Ne]);
+        Pred::Cmp(Expr::Prop(v, key), op, Expr::Lit(lit))
+    };
+    let p = atom(r);
+    q.filter = Some(match r.below(5) {
+        0 => Pred::And(Box::new(p), Box::new(atom(r))),
+        1 => Pred::Or(Box::new(p), Box::new(atom(r))),
+        _ => p,
+    });
+    for (i, (v, _)) in vars.iter().enumerate() {
+        q.ret.push(qgen::RetItem { agg: None, expr: Expr::Prop(v.clone(), "uid".into()), alias: format!("c{}", i + 1) });
+    }
+    q
+}
+
+/// fixed histories, one per kind of maintenance the paths depend on; enumerated on every run
+fn directed_histories() -> Vec<(GraphSpec, Query, Vec<&'static str>, Vec<Vec<Op>>)> {
+    let i = Value::Int64;
+    let node = |uid: i64, props: &[(&str, Value)], label: &str| {
+        let mut p = vec![("uid".to_string(), i(uid))];
+        p.extend(props.iter().map(|(k, v)| (k.to_string(), v.clone())));
+        qgen::NodeSpec { labels: vec![label.to_string()], props: p }
+    };
+    let edge = |uid: i64, s: usize, d: usize, w: i64| qgen::EdgeSpec { src: s, dst: d, ty: "T0".into(), props: vec![("uid".into(), i(uid)), ("w".into(), i(w))] };
+    let q_node = |label: Option<&str>, pred: Pred| {
+        let mut q = Query::empty(Lang::Gql);
+        q.matches.push(qgen::MatchClause { optional: false, paths: vec![qgen::PathPat { start: qgen::NodePat { var: "n1".into(), label: label.map(String::from), props: vec![] }, steps: vec![] }] });
+        q.filter = Some(pred);
+        q.ret.push(qgen::RetItem { agg: None, expr: Expr::Prop("n1".into(), "uid".into()), alias: "c1".into() });
+        q
+    };
+    let cmp = |v: &str, k: &str, op: Cmp, lit: Value| Pred::Cmp(Expr::Prop(v.into(), k.into()), op, Expr::Lit(lit));
+    let mut q_edge = Query::empty(Lang::Gql);
+    q_edge.matches.push(qgen::MatchClause {
+        optional: false,
+        paths: vec![qgen::PathPat {
+            start: qgen::NodePat { var: "n1".into(), label: None, props: vec![] },
+            steps: vec![(qgen::EdgePat { var: Some("r1".into()), ty: None, dir: qgen::Dir::Out, props: vec![], hops: None }, qgen::NodePat { var: "n2".into(), label: None, props: vec![] })],
+        }],
+    });
+    q_edge.filter = Some(cmp("r1", "w", Cmp::Gt, i(5)));
+    q_edge.ret.push(qgen::RetItem { agg: None, expr: Expr::Prop("r1".into(), "uid".into()), alias: "c1".into() });
+    let three = || GraphSpec { nodes: vec![node(0, &[("k", i(1)), ("w", i(1)), ("z", i(0))], "L0"), node(1, &[("k", i(2)), ("w", i(2))], "L0"), node(2, &[("k", i(2))], "L1")], edges: vec![edge(100, 0, 1, 3), edge(101, 1, 2, 7)] };
+    let set = |n: usize, k: &str, v: Value| Op::SetNodeProp(n, k.into(), v);
+    vec![
+        // overwrite with a value of another kind, then ask `<>`
+        (GraphSpec { nodes: vec![node(0, &[("z", i(0))], "L0")], edges: vec![] }, q_node(None, cmp("n1", "z", Cmp::Ne, i(0))), vec!["k"], vec![vec![set(0, "z", vals::s("a"))]]),
+        // index maintenance on update / removal / deletion / re-insertion
+        (three(), q_node(None, cmp("n1", "k", Cmp::Eq, i(2))), vec!["k"], vec![vec![set(0, "k", i(2))], vec![Op::RemoveNodeProp(1, "k".into())], vec![Op::DeleteNode(2)], vec![set(1, "k", i(2))], vec![set(0, "k", i(5))]]),
+        // range / zone map after updates that widen, narrow and empty the column
+        (three(), q_node(None, cmp("n1", "k", Cmp::Gt, i(5))), vec!["w"], vec![vec![set(0, "k", i(9))], vec![set(0, "k", i(1))], vec![Op::RemoveNodeProp(0, "k".into()), Op::RemoveNodeProp(1, "k".into())], vec![set(2, "k", i(6))]]),
+        // a label the database has never seen, added to a new and to an old node, removed again
+        (
+            three(),
+            q_node(Some("L9"), cmp("n1", "k", Cmp::Ge, i(0))),
+            vec!["k"],
+            vec![vec![Op::AddNode(node(50, &[("k", i(1))], "L9"))], vec![Op::AddLabel(0, "L9".into())], vec![Op::RemoveLabel(0, "L9".into())], vec![Op::DeleteNode(3)]],
+        ),
+        // index created, dropped and re-created between executions
+        (three(), q_node(None, cmp("n1", "w", Cmp::Eq, i(3))), vec!["k"], vec![vec![Op::CreateIndex("w".into())], vec![set(0, "w", i(3))], vec![Op::DropIndex("w".into())], vec![set(1, "w", i(3))], vec![Op::CreateIndex("w".into())], vec![set(0, "w", i(4))]]),
+        // edge property updates, new edges, deletions
+        (three(), q_edge, vec!["w"], vec![vec![Op::SetEdgeProp(0, "w".into(), i(9))], vec![Op::AddEdge(edge(150, 2, 0, 8))], vec![Op::DeleteEdge(1)], vec![Op::DeleteNode(0)]]),
+    ]
+}
+
+fn history_part(rep: &mut Report, tier: Tier, seed: u64) {
+    let n_cases = tier.pick(150u64, 8_000u64);
+    let budget = tier.pick(120usize, 250usize);
+    let mut reduced_cache: BTreeMap<String, Vec<String>> = BTreeMap::new();
+    let directed = directed_histories();
+    let n_directed = directed.len() as u64;
+    let mut directed = directed.into_iter();
+    for case in 0..n_cases + n_directed {
+        let (g, q, keys, steps) = if case < n_directed {
+            rep.count("history.directed", 1);
+            directed.next().unwrap()
+        } else {
+        let case = case - n_directed;
+        let mut r = Rng::new(seed, "c10-history", case);
+        let g = qgen::gen_graph(&mut r, 10, 16);
+        let lang = if r.chance(0.6) { Lang::Gql } else { Lang::Cypher };
+        let q = if r.chance(0.75) { history_query(&mut r, lang) } else { qgen::gen_query(&mut r, Profile::Physical, lang, false) };
+        let keys = idx_subset(&mut r, case);
+        let n_steps = 2 + r.below(4);
+        let mut uid = 50i64;
+        let (mut nn, mut ne) = (g.nodes.len(), g.edges.len());
+        let steps: Vec<Vec<Op>> = (0..n_steps)
+            .map(|_| {
+                (0..1 + r.below(4))
+                    .map(|_| {
+                        let op = gen_op(&mut r, nn, ne, &mut uid);
+                        match &op {
+                            Op::AddNode(_) => nn += 1,
+                            Op::AddEdge(_) => ne += 1,
+                            _ => {}
+                        }
+                        op
+                    })
+                    .collect()
+            })
+            .collect();
+        (g, q, keys, steps)
+        };
+        qgen::tick(&q.text());
+        let res = run_history(&g, &q, &keys, &steps);
+        if matches!(res[0].expected, Outcome::Error(_)) {
+            rep.count("history.rejected", 1);
+            continue;
+        }
+        rep.eval();
+        rep.count("history.cases", 1);
+        rep.count("history.executions", res.len() as u64 * 16);
+        for st in &steps {
+            for op in st {
+                rep.count(&format!("history.op.{}", op.kind()), 1);
+            }
+        }
+        // did the data changes change the answer at all? (non-trivial history)
+        let changed = res.windows(2).any(|w| qgen::diff(&w[0].expected, &w[1].expected, false).is_some());
+        if changed {
+            rep.count("history.answer_changed_by_data_changes", 1);
+            rep.nontrivial(hash_str(&format!("hist|{}", q.skeleton())));
+        }
+        let ordered = q.ordered();
+        let (failure, static_only) = history_failure(&res, ordered);
+        rep.count("history.steps_with_static_path_mismatch_only", static_only);
+        let Some((_, class, kinds0)) = failure else { continue };
+        let class = class.as_str();
+        rep.count(&format!("history.mismatch.{class}"), 1);
+        let pre = format!("{}|{class}|{}", q.skeleton(), kinds0.join(","));
+        if let Some(sigs) = reduced_cache.get(&pre) {
+            for s in sigs.clone() {
+                rep.deviation(&s, json!({"query": q.text(), "case": case, "note": "same unreduced skeleton and class as an earlier reduced history"}));
+            }
+            continue;
+        }
+        // reduce: ops first, then (graph, query)
+        let mut steps2 = steps.clone();
+        let still = |g2: &GraphSpec, q2: &Query, st: &[Vec<Op>]| -> bool {
+            let res = run_history(g2, q2, &keys, st);
+            if matches!(res[0].expected, Outcome::Error(_)) {
+                return false;
+            }
+            history_failure(&res, q2.ordered()).0.is_some_and(|(_, c, _)| c == class)
+        };
+        let mut used = 0usize;
+        'ops: loop {
+            for si in 0..steps2.len() {
+                for oi in 0..steps2[si].len() {
+                    if used >= budget {
+                        break 'ops;
+                    }
+                    let mut c = steps2.clone();
+                    c[si].remove(oi);
+                    used += 1;
+                    if still(&g, &q, &c) {
+                        steps2 = c;
+                        continue 'ops;
+                    }
+                }
+            }
+            break;
+        }
+        steps2.retain(|s| !s.is_empty());
+        let st_final = steps2.clone();
+        let mut fails = |g2: &GraphSpec, q2: &Query| still(g2, q2, &st_final);
+        let (g2, q2, used2) = qgen::reduce(&g, &q, budget, &mut fails);
+        rep.count("history.reducer_steps", (used + used2) as u64);
+        let res2 = run_history(&g2, &q2, &keys, &steps2);
+        let (step, class2, kinds) = history_failure(&res2, q2.ordered()).0.unwrap_or((0, class.to_string(), kinds0.clone()));
+        let ci = HCFG.iter().position(|(n, _)| class2.starts_with(&format!("cfg={n}|"))).unwrap_or(N_SINGLE);
+        let mut op_kinds: Vec<&str> = steps2.iter().flatten().map(|o| o.kind()).collect();
+        op_kinds.sort();
+        op_kinds.dedup();
+        let mut sigs = Vec::new();
+        for k in &kinds {
+            // the predicate shape and the target name the path's weak spot; the operations and
+            // the literal's type are in the detail
+            let shape = cell_of(&q2).map(|(s, _, t)| format!("{s}|{t}")).unwrap_or_else(|| q2.skeleton());
+            let sig = format!("c10:hist|{class2}|{shape}|{k}");
+            rep.deviation(
+                &sig,
+                json!({
+                    "reduced_query": q2.text(), "reduced_graph": qgen::graph_json(&g2), "indexed_from_start": keys,
+                    "history": steps2.iter().map(|s| s.iter().map(|o| o.show()).collect::<Vec<_>>()).collect::<Vec<_>>(),
+                    "operation_kinds": op_kinds,
+                    "deviates_after_step": step,
+                    "expected_cold_baseline": res2.get(step).map(|x| x.expected.brief()),
+                    "got_long_lived_session": res2.get(step).map(|x| x.per_cfg[ci].warm.brief()),
+                    "got_same_history_replayed_on_new_database": res2.get(step).map(|x| x.per_cfg[ci].replayed.brief()),
+                    "got_database_freshly_loaded_with_final_data_same_configuration": res2.get(step).map(|x| x.per_cfg[ci].fresh_final.brief()),
+                    "original_query": q.text(), "case": case,
+                }),
+            );
+            sigs.push(sig);
+        }
+        reduced_cache.insert(pre, sigs);
+    }
+}
+
+/// Developer aid / manual replay: `C10_PLAY='gql|MATCH ...' vh C10 --seed N` prints the outcome
+/// of the text on the seed's first random graph under the baseline and every variant.
+fn play(spec: &str, seed: u64) -> ! {
+    let (lang, text) = spec.split_once('|').expect("C10_PLAY=lang|query");
+    let lang = if lang == "cypher" { Lang::Cypher } else { Lang::Gql };
+    let mut r = Rng::new(seed, "c10-play", 0);
+    let g = qgen::gen_graph(&mut r, 8, 12);
+    if std::env::var("C10_PLAY_GRAPH").is_ok() {
+        println!("{}", serde_json::to_string_pretty(&qgen::graph_json(&g)).unwrap());
+    }
+    let keys = ["k", "w", "z"];
+    let b = qgen::build(&g, false);
+    let base = run_text(&b.db, lang, text, BASE);
+    println!("baseline: {}", base.brief());
+    for v in VARIANTS {
+        let vb = build_variant(&g, v.phys.factorized, v.idx, &keys);
+        let got = run_text(&vb.db, lang, text, v.phys);
+        let d = diff_kinds(&base, &got, false);
+        if d.is_empty() {
+            println!("{}: same", v.name);
+        } else {
+            println!("{}: {:?}\n{}", v.name, d, got.brief());
+        }
+    }
+    std::process::exit(0)
+}
+
+/// Developer aid / manual replay of one random case: `C10_CASE=<n> vh C10 --tier T --seed S`
+/// re-generates case n and runs the baseline and every variant several times.
+fn replay_case(tier: Tier, seed: u64, case: u64) -> ! {
+    let mut r = Rng::new(seed, "c10", case);
+    let g = qgen::gen_graph(&mut r, tier.pick(12, 14), tier.pick(20, 26));
+    let lang = if r.chance(0.6) { Lang::Gql } else { Lang::Cypher };
+    let q = qgen::gen_query(&mut r, Profile::Physical, lang, false);
+    let keys = idx_subset(&mut r, case);
+    let text = q.text();
+    println!("{} [{}] indexed {:?}\n{}", text, lang.name(), keys, serde_json::to_string(&qgen::graph_json(&g)).unwrap());
+    for round in 0..5 {
+        let base = baseline_outcome(&g, &q, &text);
+        println!("round {round} baseline: {}", base.brief().replace('\n', ";"));
+        for v in VARIANTS {
+            let got = variant_outcome(&g, &q, &text, v, &keys);
+            let d = diff_kinds(&base, &got, q.ordered());
+            if !d.is_empty() {
+                println!("   {}: {:?} {}", v.name, d, got.brief().replace('\n', ";"));
+            }
+        }
+    }
+    std::process::exit(0)
+}
+
+pub fn run(tier: Tier, seed: u64) -> ! {
+    if let Ok(spec) = std::env::var("C10_PLAY") {
+        play(&spec, seed);
+    }
+    if let Some(case) = std::env::var("C10_CASE").ok().and_then(|c| c.parse().ok()) {
+        replay_case(tier, seed, case);
+    }
+    let mut rep = Report::new("C10", tier, seed, "exploration");
+    rep.rule = "matrix: every (shape, literal type, target, path) cell over 16 fixed data sets; random: one random graph + one random GQL/Cypher text per case under 9 physical configurations + histories of data changes against one long-lived session. Non-trivial = the baseline returns rows and the text filters (random), or the data changes changed the answer (history); distinct by canonical query skeleton".into();
+    rep.assumptions = vec![
+        "oracle = same text on an equal graph with no property index, planner.no_zone_map / no_index_path / no_range_path set, factorized execution off, fresh database (cold plan cache)".into(),
+        "the three planner flags only remove an optimisation; the generic path's own semantics are not judged here (C08/C11)".into(),
+        "epoch-0 data through the direct API; MVCC visibility of index / range node lists is not observable at epoch 0".into(),
+        "the plan cache is shared by all sessions of one database, so a cold cache means a freshly built database with the same data".into(),
+        "rows compared bit-exactly as multisets, as sequences when the ORDER BY keys identify every row".into(),
+    ];
+    hooks::COUNT_HITS.store(true, Ordering::SeqCst);
+    qgen::watchdog("C10", 120);
+    matrix(&mut rep);
+    factorized_set(&mut rep);
+    stacked_filter_set(&mut rep);
+    random_part(&mut rep, tier, seed);
+    history_part(&mut rep, tier, seed);
+    set_flags(BASE);
+    for (site, n) in hooks::hits() {
+        if site.starts_with("planner.") {
+            rep.count(&format!("hook_hits.{site}"), n);
+        }
+    }
+    rep.finish()
 }
